@@ -173,19 +173,26 @@ def gen_provocation_inspect(rng, sid):
     return {"id": sid, "kind": "provocation-inspect", "entry": False, "bps0": [2], "steps": steps, "pin": 2 * sid + 1, "sched": "main-first"}
 
 
-def gen_provocation_stale_pause(rng, sid, rounds):
-    """pause and continue in ONE write, again and again while the program runs: whenever the cycle thread consumes the
-    pending pause before the continue is handled, the Pause stop is in flight while continue clears pause_expected -
-    the coordinator has to drop it (and a Pause stop it looked at earlier is reported)."""
+def gen_provocation_stale_pause(rng, sid, rounds, pinned):
+    """pause ... continue in ONE write, again and again while the program runs: whenever the cycle thread consumes the
+    pending pause before the continue is handled, the Pause stop is in flight while continue clears pause_expected - the
+    coordinator has to drop it if it looks afterwards.  pinned: one CPU, cycle thread above main thread above the
+    coordinator, and a pipeline of harmless requests between pause and continue, so that the cycle thread's next cycle
+    falls between the two and the coordinator cannot look before the pipeline is through (the drop is then forced)."""
     steps = []
     for _ in range(rounds):
-        second = rng.choice(["continue", "continue", "continue", "next"])
+        second = "continue" if pinned else rng.choice(["continue", "continue", "continue", "next"])
         steps.append(req("pause", rng.choice([1, 2]), gap=0))
-        steps.append(req(second, 1, gap=rng.choice([-1, -1, -1, 0, 30, 150])))
-        steps.append({"op": "sleep", "us": rng.choice([300, 1000, 2500, 4000])})
+        if pinned:
+            steps += [req("threads", gap=-1) for _ in range(60)]
+        steps.append(req(second, 1, gap=-1 if pinned else rng.choice([-1, -1, -1, 0, 30, 150])))
+        steps.append({"op": "sleep", "us": 3000 if pinned else rng.choice([300, 1000, 2500, 4000])})
         if second != "continue":
             steps.append(req("continue", 1))
-    return {"id": sid, "kind": "provocation-stale-pause", "entry": False, "bps0": [], "steps": steps}
+    sc = {"id": sid, "kind": "provocation-stale-pause", "entry": False, "bps0": [], "steps": steps}
+    if pinned:
+        sc.update(pin=2 * sid + 1, sched="runner-main-coord")
+    return sc
 
 
 def from_model(hist, rng, sid):
@@ -220,8 +227,8 @@ def make_scripts(tier, work):
         scripts.append(gen_provocation_order(rng, len(scripts), 12))
     for _ in range(8 if q else 40):
         scripts.append(gen_provocation(rng, len(scripts), 25))
-    for _ in range(6 if q else 30):
-        scripts.append(gen_provocation_stale_pause(rng, len(scripts), 30))
+    for i in range(8 if q else 32):
+        scripts.append(gen_provocation_stale_pause(rng, len(scripts), 10 if i % 2 else 30, pinned=i % 2 == 1))
     for h in hists:
         scripts.append(from_model(h, rng, len(scripts)))
     for _ in range(170 if q else 2600):
